@@ -464,8 +464,16 @@ func (w *fdWorld) recordMeta(rep *fdRep, ops []operations.Operation, apis []stri
 			if a := fdFindArr(root, parent); a != nil {
 				for _, n := range a.AllRGANodes() {
 					if n.PositionCreatedAt().Key() == prev.Key() && n.IsRemoved() {
-						// the json layer takes a removed node as anchor only through LastCreatedAt()
-						m.trailingTomb = true
+						// the json layer takes a removed node as anchor only through LastCreatedAt();
+						// the root is inspected after the whole change, so a node that a LATER operation of
+						// the same change removed (add after x; remove x) was live when this one executed
+						at := n.RemovedAt()
+						if e := n.Element(); e != nil {
+							at = e.RemovedAt()
+						}
+						if at == nil || !at.After(op.ExecutedAt()) {
+							m.trailingTomb = true
+						}
 					}
 				}
 			}
